@@ -117,6 +117,17 @@ func checkC08(c *Ctx) {
 			n++
 			key := fmt.Sprintf("tree.%s/count-guard#%d(%s)", name, n, what)
 			code := c.inlineTip(c.condsToBexpr(info, rel, nil))
+			if elem == "" {
+				// the tip test sits in a predicate (`countedEdge(e, tips)`): the branch is the X of the
+				// len(X.right.neigh) term the inlined condition compares with 1
+				terms, atoms := map[string]bool{}, map[string]bool{}
+				code.collect(terms, atoms)
+				for t := range terms {
+					if strings.HasPrefix(t, "len(") && strings.HasSuffix(t, ".right.neigh)") {
+						elem = strings.TrimSuffix(strings.TrimPrefix(t, "len("), ".right.neigh)")
+					}
+				}
+			}
 			spec := bOr(bAtom(tips.Name()), bNot(bCmp("len("+elem+".right.neigh)", token.EQL, "1")))
 			// other conjuncts (ok &&) may strengthen the guard: require code restricted to tips/tip terms ⇔ spec
 			code = dropAtomsExcept(code, map[string]bool{tips.Name(): true}, "len("+elem+".right.neigh)")
@@ -1114,7 +1125,7 @@ func (c *Ctx) fbpSupport() {
 	// the counter is incremented only after the taxon check passed: the Add comes after the CompareTipIndexes call in the worker
 	var cmpPos token.Pos
 	for _, call := range callsIn(fi.Decl.Body, true) {
-		if g := calleeOf(info, call); g != nil && isRepoFunc(g, "tree", "Tree", "CompareTipIndexes") {
+		if g := calleeOf(info, call); g != nil && (isRepoFunc(g, "tree", "Tree", "CompareTipIndexes") || (inRepo(g) && !g.Exported() && g.Pkg() == fi.Pkg.Types && c.reaches(g, func(h *types.Func) bool { return isRepoFunc(h, "tree", "Tree", "CompareTipIndexes") }, 2, map[*types.Func]bool{}))) {
 			cmpPos = call.Pos()
 		}
 	}
